@@ -10,6 +10,7 @@ use rustc_span::Span;
 
 pub struct Cx<'tcx> {
     pub tcx: TyCtxt<'tcx>,
+    pub owner: std::cell::Cell<Option<DefId>>,
 }
 
 pub fn span_loc(tcx: TyCtxt<'_>, sp: Span) -> (String, usize, usize) {
@@ -94,6 +95,13 @@ impl<'tcx> Cx<'tcx> {
         if let ty::FnDef(did, args) = ty.kind() {
             o.push(("fn".to_string(), J::s(def_str(self.tcx, *did))));
             o.push(("args".to_string(), J::s(format!("{:?}", args))));
+            if let Some(owner) = self.owner.get() {
+                let env = TypingEnv::post_analysis(self.tcx, owner);
+                if let Ok(Some(inst)) = Instance::try_resolve(self.tcx, env, *did, args) {
+                    o.push(("fn_resolved".to_string(), J::s(def_str(self.tcx, inst.def_id()))));
+                    o.push(("fn_resolved_local".to_string(), J::Bool(inst.def_id().is_local())));
+                }
+            }
         }
         match c.const_ {
             Const::Unevaluated(uv, _) => {
@@ -385,6 +393,7 @@ impl<'tcx> Cx<'tcx> {
             return None;
         }
         let body = self.tcx.optimized_mir(did);
+        self.owner.set(Some(did));
         let mut o = match self.body(did, body) {
             J::Obj(o) => o,
             _ => unreachable!(),
